@@ -294,6 +294,9 @@ pub struct Cl {
     pub in_ev_high: bool,
     pub in_ev_zero: bool,
     pub in_mut_zero: bool,
+    /// raw (library) value of the last update tick the client reported / was handed
+    pub last_update_raw: u32,
+    pub last_upd_delivered_raw: u32,
     /// `ServerMutateTicks::last_tick` before the client's latest frame
     pub mt_last_before: u32,
     /// F22: this client was sent the despawn of an owner together with the removal of a relationship to it
@@ -304,6 +307,8 @@ pub struct Cl {
     pub joined_late: bool,
     /// per mutate tick: update ticks the delivered messages of that tick wait for
     pub delivered_reqs: BTreeMap<u32, Vec<u32>>,
+    /// mutate index -> update ticks required by the delivered messages that carried it
+    pub delivered_idx_reqs: BTreeMap<u16, Vec<u32>>,
     /// every (server entity, pre-spawned client entity) pair registered in this session (never pruned)
     pub pre_ever: BTreeSet<(Entity, Entity)>,
 }
@@ -420,12 +425,15 @@ impl Sim {
         let bump = match rng.below(24) {
             0 => HALF - 5 - rng.below(250) as u32,
             1 if rng.below(2) == 0 => HALF + rng.below(1 << 30) as u32,
+            // ... or about to wrap around
+            2 if rng.below(2) == 0 => u32::MAX - 5 - rng.below(250) as u32,
             _ => bump,
         };
         let bump = std::env::var("VERIF_BUMP").ok().and_then(|v| v.parse::<u32>().ok()).unwrap_or(bump);
         if bump > 0 {
             server.world_mut().resource_mut::<ServerTick>().increment_by(bump);
         }
+        wire::set_origin(bump);
         let ch = server.world().resource::<RepliconChannels>().clone();
         let schan = ch.server_channels().to_vec();
         let cchan = ch.client_channels().to_vec();
@@ -481,12 +489,15 @@ impl Sim {
                     in_ev_high: false,
                     in_ev_zero: false,
                     in_mut_zero: false,
+                    last_update_raw: 0,
+                    last_upd_delivered_raw: 0,
                     mt_last_before: 0,
                     f22: false,
                     f21_mut: false,
                     f21_ev: false,
                     joined_late: false,
                     delivered_reqs: default(),
+                    delivered_idx_reqs: default(),
                     pre_ever: default(),
                 }
             })
@@ -541,10 +552,52 @@ impl Sim {
             known: vec![],
             obs: default(),
         };
+        if sim.cfg.rel && sim.rng.below(3) == 0 {
+            sim.prepopulate();
+        }
         for i in 0..sim.clients.len() {
             sim.connect(i);
         }
         sim
+    }
+
+    /// A world that already holds related entities (of both synchronized relationship types) when the
+    /// server starts: the relationship graph is then built from a scan, not from the observers.
+    fn prepopulate(&mut self) {
+        let n = 3 + self.rng.below(5);
+        let mut made: Vec<Entity> = vec![];
+        for i in 0..n {
+            let v = self.rng.below(100000) as u32;
+            let blob = self.blob_val();
+            let mut em = self.server.world_mut().spawn((Replicated, Va(v), Vb(v + 1)));
+            if i % 2 == 0 {
+                insert_kind(&mut em, K_BLOB, blob);
+            }
+            let id = em.id();
+            self.ents.push(id);
+            // acyclic by construction: relations only point to earlier entities
+            if i > 0 {
+                let t = made[self.rng.below(made.len())];
+                match self.rng.below(4) {
+                    0 => {
+                        self.server.world_mut().entity_mut(id).insert(ChildOf(t));
+                    }
+                    1 => {
+                        self.server.world_mut().entity_mut(id).insert(Follows(t));
+                    }
+                    2 => {
+                        let t2 = made[self.rng.below(made.len())];
+                        self.server.world_mut().entity_mut(id).insert((ChildOf(t), Follows(t2)));
+                    }
+                    _ => {}
+                }
+            }
+            made.push(id);
+        }
+        // the server's first frame (graph scan) happens before anybody connects
+        self.server_frame(false);
+        self.note(format!("prepopulated {n} related entities before the server's first frame"));
+        self.obs.inc("worlds_with_relations_before_server_start");
     }
 
     pub fn viol(&mut self, props: &[&'static str], msg: String) {
@@ -588,8 +641,13 @@ impl Sim {
             return Some("event-ordered-against-initial-tick-at-upper-half-tick");
         }
         if has(&["C12"]) && self.cfg.track {
-            let st = self.server.world().resource::<ServerTick>().get();
-            if st >= HALF && c.mt_last_before == 0 {
+            // the tick the violation is about (relative in the message), else the server's current tick
+            let about = msg
+                .find("tick ")
+                .and_then(|at| msg[at + 5..].split(|ch: char| !ch.is_ascii_digit()).next().and_then(|d| d.parse::<u32>().ok()))
+                .map(wire::raw)
+                .unwrap_or_else(|| self.server.world().resource::<ServerTick>().get());
+            if about >= HALF && c.mt_last_before == 0 {
                 return Some("mutate-ticks-ignored-at-upper-half-tick");
             }
         }
@@ -626,6 +684,8 @@ impl Sim {
         c.completion_checked.clear();
         c.last_upd_tick_sent = 0;
         c.last_upd_tick_delivered = 0;
+        c.last_update_raw = 0;
+        c.last_upd_delivered_raw = 0;
         c.stamps.clear();
         c.authorized = false;
         c.hold_upd = false;
@@ -637,6 +697,7 @@ impl Sim {
         c.in_mut_zero = false;
         c.joined_late = false;
         c.delivered_reqs.clear();
+        c.delivered_idx_reqs.clear();
         c.pre_ever.clear();
         self.repointed.retain(|(ci, _)| *ci != i);
         self.ever_explicit.retain(|(ci, _)| *ci != i);
@@ -765,6 +826,8 @@ impl Sim {
         if t != 0 {
             self.viol(&["C09"], format!("server tick {t} not reset by stop"));
         }
+        // the restarted server counts from 0 again
+        wire::set_origin(0);
         self.server.world_mut().resource_mut::<Log>().recs.clear();
         self.server.world_mut().resource_mut::<RepliconServer>().set_running(true);
         self.snaps.clear();
@@ -818,14 +881,31 @@ impl Sim {
         out
     }
 
+    /// The server's tick relative to the run's origin. While the raw tick rests on 0 (stepped over
+    /// silently in a run that wraps, see `server_frame`) the previous tick is still the current one.
+    fn server_tick_rel(&self) -> u32 {
+        match self.server.world().resource::<ServerTick>().get() {
+            0 => self.last_tick_seen,
+            raw => wire::rel(raw),
+        }
+    }
+
     pub fn expected_visible(&self, ci: usize, e: Entity) -> bool {
         self.vis_rec.get(&(ci, e)).copied().unwrap_or(vis_default(self.cfg.vis))
     }
 
     pub fn server_frame(&mut self, tick: bool) {
         if tick && self.cfg.pol == Pol::Manual {
-            let by = if self.rng.below(4) == 0 { 2 } else { 1 };
+            let mut by = if self.rng.below(4) == 0 { 2 } else { 1 };
+            if self.server.world().resource::<ServerTick>().get().wrapping_add(by) == 0 {
+                by += 1;
+            }
             self.server.world_mut().resource_mut::<ServerTick>().increment_by(by);
+        }
+        if self.cfg.pol != Pol::Manual && self.server.world().resource::<ServerTick>().get() == u32::MAX {
+            // the raw tick 0 is the library's "no tick yet" value on the client side: a run that wraps
+            // steps over it (silently, so that the step itself does not count as a tick)
+            self.server.world_mut().resource_mut::<ServerTick>().bypass_change_detection().increment_by(1);
         }
         self.frame_no += 1;
         // recipients of server events processed by this frame
@@ -835,7 +915,7 @@ impl Sim {
         self.refresh_auth();
         self.server_frames_since_start += 1;
         self.server_frames_since_tick += 1;
-        let t = self.server.world().resource::<ServerTick>().get();
+        let t = self.server_tick_rel();
         self.ticked_this_frame = t != self.last_tick_seen;
         self.last_frame_ticked = self.ticked_this_frame;
         self.note(format!("server_frame #{} tick_req={tick} now={t}", self.frame_no));
@@ -911,11 +991,11 @@ impl Sim {
             // (with tracking enabled the server sends mutate messages, carrying update tick 0, before the
             // client's first update message; such a message can still be in flight or buffered)
             let c = &mut self.clients[i];
-            if c.in_mut_zero && (c.last_update_tick >= HALF || c.last_upd_tick_delivered >= HALF) && !c.f21_mut {
+            if c.in_mut_zero && (c.last_update_raw >= HALF || c.last_upd_delivered_raw >= HALF) && !c.f21_mut {
                 c.f21_mut = true;
                 self.obs.inc("f21_unstamped_mutate_processed_after_first_update_at_high_tick");
             }
-            if c.in_ev_zero && (c.last_update_tick >= HALF || c.last_upd_tick_delivered >= HALF) && !c.f21_ev {
+            if c.in_ev_zero && (c.last_update_raw >= HALF || c.last_upd_delivered_raw >= HALF) && !c.f21_ev {
                 c.f21_ev = true;
                 self.obs.inc("f21_unstamped_event_processed_after_first_update_at_high_tick");
             }
@@ -974,6 +1054,20 @@ impl Sim {
             }
             for (ch, m) in msgs {
                 self.obs.inc("c2s_msgs");
+                if ch == 0 {
+                    // C11: only applied mutate messages are acknowledged - one that still waits in the
+                    // client's buffer for its update message must not be
+                    let u = wire::rel(self.clients[ci].app.world().resource::<bevy_replicon::client::ServerUpdateTick>().get());
+                    for idx in wire::acks(&m) {
+                        self.obs.inc("c11_acks_checked_against_application");
+                        let waiting = self.clients[ci].delivered_idx_reqs.get(&idx).and_then(|reqs| reqs.iter().copied().filter(|r| *r > u).max());
+                        if let Some(r) = waiting {
+                            if self.clients[ci].delivered_idx_reqs[&idx].len() == 1 {
+                                self.viol(&["C11"], format!("client{ci} acknowledged mutate index {idx} whose message still waits for update tick {r} (client is at {u}) and has not been applied"));
+                            }
+                        }
+                    }
+                }
                 self.mark_client_event_on_wire(ci, ch, &m);
                 self.clients[ci].c2s.entry(ch).or_default().push_back(m);
             }
@@ -994,10 +1088,11 @@ impl Sim {
                     }
                 }
                 self.clients[ci].delivered_reqs.entry(mm.tick).or_default().push(mm.update_tick);
-                if mm.update_tick >= HALF {
+                self.clients[ci].delivered_idx_reqs.entry(mm.index).or_default().push(mm.update_tick);
+                if mm.raw_update_tick >= HALF {
                     self.clients[ci].in_mut_high = true;
                 }
-                if mm.update_tick == 0 {
+                if mm.raw_update_tick == 0 {
                     self.clients[ci].in_mut_zero = true;
                 }
                 let u = self.clients[ci].last_update_tick;
@@ -1009,14 +1104,15 @@ impl Sim {
         if ch == 0 {
             if let Some((_, t, _)) = wire::update_header(&m) {
                 self.clients[ci].last_upd_tick_delivered = t;
+                self.clients[ci].last_upd_delivered_raw = wire::update_header_raw_tick(&m).unwrap_or(0);
             }
         }
         if self.cfg.events && ch >= self.s_base {
             if let Some(k) = S_KINDS.get(ch - self.s_base) {
                 if !s_kind_independent(k) {
-                    match wire::event_stamp(&m) {
-                        Some((t, _)) if t >= HALF => self.clients[ci].in_ev_high = true,
-                        Some((0, _)) => self.clients[ci].in_ev_zero = true,
+                    match wire::event_stamp_raw(&m) {
+                        Some(t) if t >= HALF => self.clients[ci].in_ev_high = true,
+                        Some(0) => self.clients[ci].in_ev_zero = true,
                         _ => {}
                     }
                 }
@@ -1391,7 +1487,7 @@ impl Sim {
         let pick = if alive.is_empty() { None } else { Some(alive[self.rng.below(alive.len())]) };
         let vis_ok = self.cfg.vis != Vis::All;
         // op selection
-        let mut k = self.rng.below(24);
+        let mut k = self.rng.below(25);
         if vis_ok && self.rng.below(8) < self.prof.vis_bias {
             k = 9;
         } else if self.prof.struct_bias > 0 && self.rng.below(8) < self.prof.struct_bias {
